@@ -27,11 +27,18 @@ pub enum Org {
     /// effective RP ID is the host exactly as the link spells it)
     AndroidUpper,
     AndroidUnicode,
+    /// an Android app origin whose certificate hash encodes to base64url text with '-' and '_' in it
+    /// (the sample fingerprint of the library's documentation spells the same in both base64 alphabets)
+    AndroidFp2,
 }
-pub const ORGS: [Org; 10] = [Org::HostIsRp, Org::SubDomain, Org::Port, Org::Idn, Org::Localhost, Org::Android, Org::Long33, Org::Long64, Org::AndroidUpper, Org::AndroidUnicode];
+pub const ORGS: [Org; 11] = [Org::HostIsRp, Org::SubDomain, Org::Port, Org::Idn, Org::Localhost, Org::Android, Org::Long33, Org::Long64, Org::AndroidUpper, Org::AndroidUnicode, Org::AndroidFp2];
 const LONG33: &str = "a-long-relying-party.example3.com";
 const LONG64: &str = "accounts.a-rather-long-relying-party-identifier.example-64.co.uk";
 pub const FP: &str = "B3:5B:68:D5:CE:84:50:55:7C:6A:55:FD:64:B5:1F:EA:C1:10:CB:36:D6:A3:52:1C:59:48:DB:3A:38:0A:34:A9";
+pub const FP2: &str = "FB:FF:BE:FB:FF:BE:FB:FF:BE:FB:FF:BE:FB:FF:BE:FB:FF:BE:FB:FF:BE:FB:FF:BE:FB:FF:BE:FB:FF:BE:FF:FE";
+pub fn fp2_bytes() -> Vec<u8> {
+    FP2.split(':').map(|h| u8::from_str_radix(h, 16).unwrap()).collect()
+}
 pub fn fp_bytes() -> Vec<u8> {
     FP.split(':').map(|h| u8::from_str_radix(h, 16).unwrap()).collect()
 }
@@ -49,11 +56,12 @@ impl Org {
             Org::AndroidUpper => (None, "Example.COM", format!("android:apk-key-hash:{}", b64::url_nopad(&fp_bytes()))),
             Org::AndroidUnicode => (None, "bücher.example.com", format!("android:apk-key-hash:{}", b64::url_nopad(&fp_bytes()))),
             Org::Android => (Some("example.com"), "example.com", format!("android:apk-key-hash:{}", b64::url_nopad(&fp_bytes()))),
+            Org::AndroidFp2 => (Some("example.com"), "example.com", format!("android:apk-key-hash:{}", b64::url_nopad(&fp2_bytes()))),
         }
     }
     pub fn url(self) -> Option<Url> {
         match self {
-            Org::Android | Org::AndroidUpper | Org::AndroidUnicode => None,
+            Org::Android | Org::AndroidUpper | Org::AndroidUnicode | Org::AndroidFp2 => None,
             o => Some(Url::parse(&o.spec().2).unwrap()),
         }
     }
@@ -157,7 +165,7 @@ pub fn with_origin<R>(org: Org, f: impl FnOnce(Origin<'_>) -> R) -> R {
                 Org::AndroidUnicode => "bücher.example.com",
                 _ => "example.com",
             };
-            let link = UnverifiedAssetLink::new("com.example.app", FP, host, Url::parse("https://example.com/.well-known/assetlinks.json").unwrap()).expect("harness: asset link");
+            let link = UnverifiedAssetLink::new("com.example.app", if org == Org::AndroidFp2 { FP2 } else { FP }, host, Url::parse("https://example.com/.well-known/assetlinks.json").unwrap()).expect("harness: asset link");
             f(Origin::Android(link))
         }
     }
